@@ -5,6 +5,8 @@ import (
 	"reflect"
 	"sort"
 
+	"github.com/go-kid/ioc/container"
+
 	"verif/internal/core"
 	"verif/internal/envx"
 	"verif/internal/scen"
@@ -155,5 +157,130 @@ func c06Named(c *core.Ctx) {
 			c.Outcome(fmt.Sprintf("named-pointer/ok/ref=%v", ref != nil))
 		}
 		c.Sample(map[string]any{"case": cs, "error": scen.FirstLine(o.Err)})
+	})
+}
+
+// ---- a user scanner that stores every definition back under the name it already has (get /
+// modify / put): each component is still one component for every slice-typed point
+
+type c6StoreBack struct {
+	only string // "" = every component
+}
+
+func (*c6StoreBack) Naming() string { return "zz-c6storeback" }
+func (s *c6StoreBack) PostProcessDefinitionRegistry(r container.DefinitionRegistry, c any, name string) error {
+	if s.only != "" && name != s.only {
+		return nil
+	}
+	r.RegisterMeta(r.GetMetaOrRegister(name, c))
+	return nil
+}
+
+type c6ReRegCase struct {
+	Pop  []scen.Inst `json:"population"`
+	Only string      `json:"stored_back_only,omitempty"`
+	Desc bool        `json:"descending_order,omitempty"`
+}
+
+type c6ReRegHolder struct {
+	PAs  []*scen.TA `wire:",required=false"`
+	I1s  []scen.I1  `wire:",required=false"`
+	Anys []any      `wire:",required=false"`
+	Fn   []scen.I1  `func:"Comp,required=false"`
+	One  scen.I1    `wire:",required=false"`
+}
+
+func c06ReReg(c *core.Ctx) {
+	gen := func(yield func(c6ReRegCase) bool) {
+		pops := [][]scen.Inst{
+			{{Typ: "TA", Name: "x"}},
+			{{Typ: "TA", Name: "x"}, {Typ: "TA", Name: "y"}},
+			{{Typ: "TA", Name: "x"}, {Typ: "TB", Name: "y"}},
+			{{Typ: "TA"}, {Typ: "TB", Name: "y"}, {Typ: "TD", Name: "z"}},
+		}
+		for _, pop := range pops {
+			for _, only := range []string{"", pop[0].RegName()} {
+				for _, desc := range []bool{false, true} {
+					if !yield(c6ReRegCase{pop, only, desc}) {
+						return
+					}
+				}
+			}
+		}
+	}
+	Cases(c, gen, func(c *core.Ctx, cs c6ReRegCase) {
+		h := &c6ReRegHolder{}
+		comps := []any{h, &c6StoreBack{only: cs.Only}}
+		user := map[string]bool{}
+		var base []string
+		wantPA, wantI1, wantAll := []string{}, []string{}, []string{}
+		for i, in := range cs.Pop {
+			o := scen.BuildInst(in, i)
+			comps = append(comps, o)
+			user[in.RegName()] = true
+			base = append(base, in.RegName())
+			id := scen.IdOf(o)
+			wantAll = append(wantAll, id)
+			if in.Typ == "TA" {
+				wantPA = append(wantPA, id)
+			}
+			if scen.Implements["I1"][in.Typ] {
+				wantI1 = append(wantI1, id)
+			}
+		}
+		sort.Strings(base)
+		if cs.Desc {
+			sort.Sort(sort.Reverse(sort.StringSlice(base)))
+		}
+		o := scen.Start(scen.StartSpec{Ch: envx.Fixed("", nil), Comps: comps, User: user, Base: base})
+		c.S.Evaluations++
+		c.S.Programs++
+		c.S.States++
+		c.S.Nontrivial++
+		c.S.Transitions += int64(o.Trace.Calls)
+		key := "C06/re-registered/" + core.Hash(cs)
+		desc := fmt.Sprintf("providers %v, a user scanner stores the definition of %q back under its name (\"\" = of every component)", cs.Pop, cs.Only)
+		if !o.OK() {
+			c.Outcome("re-registered/start-failed")
+			c.Report(key, "spurious-error", desc+": every point is optional but start-up did not succeed: "+scen.FirstLine(o.Err)+o.Panic+o.Abort, cs)
+			return
+		}
+		user4 := func(ids []string) []string { // the universe's providers only (the holder, the scanner and the built-ins are components too)
+			var out []string
+			for _, id := range ids {
+				if id != "?" && id != "-" {
+					out = append(out, id)
+				}
+			}
+			sort.Strings(out)
+			return out
+		}
+		for _, f := range []struct {
+			name string
+			got  []string
+			want []string
+		}{
+			{"[]*TA", user4(scen.IdsOf(h.PAs)), wantPA},
+			{"[]I1", user4(scen.IdsOf(h.I1s)), wantI1},
+			{"[]any", user4(scen.IdsOf(h.Anys)), wantAll},
+		} {
+			sort.Strings(f.want)
+			if fmt.Sprint(f.got) != fmt.Sprint(f.want) {
+				c.Outcome("re-registered/slice-differs")
+				c.Report(key, "slice-mismatch", fmt.Sprintf("%s: the %s point holds %v, want every admissible component exactly once: %v", desc, f.name, f.got, f.want), cs)
+				return
+			}
+		}
+		seen := map[string]int{}
+		for _, id := range scen.IdsOf(h.Fn) {
+			seen[id]++
+			if seen[id] > 1 {
+				c.Outcome("re-registered/slice-differs")
+				c.Report(key, "slice-mismatch", fmt.Sprintf("%s: the func-tag slice holds %s twice (%v)", desc, id, scen.IdsOf(h.Fn)), cs)
+				return
+			}
+		}
+		c.Outcome(fmt.Sprintf("re-registered/ok/providers=%d", len(cs.Pop)))
+		c.Sample(map[string]any{"case": cs})
 	})
 }
